@@ -40,7 +40,7 @@ type CounterExample struct {
 	Inputs   map[string]string `json:"inputs"`
 	Known    []string          `json:"known,omitempty"`
 	Orders   bool              `json:"orders,omitempty"`
-	Sched    []int             `json:"sched,omitempty"`
+	Pauses   []PausePoint      `json:"pauses,omitempty"`
 	Prefix   []int             `json:"prefix,omitempty"`
 	Mutation string            `json:"mutation,omitempty"`
 }
@@ -90,6 +90,9 @@ type Exec struct {
 	frozenOn    bool
 	frozenHits  []frozenHit
 	sharedFrom  int
+	encodesUnlocked int
+	deadlocked  bool
+	leakCheck   bool
 	held        []*Cell // mutex cells currently held (sequential lockset)
 	accesses    []access
 	sched       *Sched
@@ -485,6 +488,8 @@ func (ex *Exec) runPath(fn *ssa.Function, prefix []int) (res *PathResult, pendin
 	ex.pathInstr, ex.ordersUsed, ex.allMapOrders, ex.internalN = 0, false, false, 0
 	ex.frozenOn, ex.frozenHits, ex.held, ex.accesses = false, nil, nil, nil
 	ex.sharedFrom = 0
+	ex.encodesUnlocked = 0
+	ex.deadlocked, ex.leakCheck = false, false
 	ex.sched = nil
 	for _, k := range ex.pathNatives {
 		delete(ex.natives, k)
@@ -541,6 +546,12 @@ func (ex *Exec) runPath(fn *ssa.Function, prefix []int) (res *PathResult, pendin
 		}
 		ex.runEntry(fn)
 		res.Outcome = "OK"
+		if ex.deadlocked {
+			res.Outcome = "DEADLOCK"
+			if len(ex.ces) > 0 {
+				res.Detail = ex.ces[len(ex.ces)-1].Msg
+			}
+		}
 	}()
 	if ex.solver.dead {
 		res.Outcome = "ABORT"
